@@ -1,10 +1,12 @@
 import Dcg.Proofs.Names
+import Dcg.Proofs.CaseMap
 /-
 C07 — member names are legal identifiers; wire names are preserved.
 Only property theorems live here; helper lemmas are in Dcg/Proofs/Names.lean.
 
 Reading guide. `E : Env` are `str.lower`/`str.upper` (parameters; `CaseOK E` says they map an identifier
-that does not start with `_` to such an identifier — checked exhaustively for CPython by the translator).
+that does not start with `_` to such an identifier — proved below for CPython's maps as generated,
+`python_case_maps_ok`).
 `k` selects the resolver class, `cfg` its options, `ign`/`uc` the flags `ignore_snake_case_field` /
 `upper_camel`. `PrefixOK cfg`: `special_field_name_prefix` is a non-empty identifier not starting
 with `_` (the default "field" is). The character classes, keywords and pydantic's reserved names are
@@ -30,10 +32,22 @@ theorem retry_terminates (E : Env) (k : Kind) (cfg : Cfg) (name : List Char) (ex
   · rename_i h; exact absurd h (stage1_ne_outOfFuel _ _ _ _)
   · intro h; cases h
 
-/-- non-vacuity: the default options satisfy `PrefixOK`, and ASCII-only lower/upper (CPython's
-behaviour on ASCII names) satisfies `CaseOK` -/
+/-- The hypothesis `CaseOK` holds for CPython's own `str.lower` / `str.upper` as regenerated from the
+interpreter (character-wise maps of Dcg/Gen/Unicode): every run of the case tables keeps XID_Start and
+XID_Continue interval-wise, every explicit entry character by character, and no image starts with `_`
+(kernel-evaluated in Dcg/Proofs/CaseMap). Not covered: the final-sigma context rule of `str.lower`
+(U+03A3 ↦ U+03C2 instead of U+03C3 at the end of a word; both are XID_Start, `finalSigma_ok`). -/
+theorem python_case_maps_ok : CaseOK pyEnv := Dcg.Proofs.CaseMap.caseOK_pyEnv
+
+theorem finalSigma_ok : finalSigma.all (fun n => inRanges xidStart n && inRanges xidContinue n) = true := by
+  decide +kernel
+
+/-- non-vacuity: the default options satisfy `PrefixOK`; ASCII-only lower/upper satisfies `CaseOK` too -/
 example : PrefixOK {} := by decide +kernel
 example : CaseOK asciiEnv := caseOK_asciiEnv
+example (name : List Char) (excl : List (List Char)) :
+    getValidName pyEnv .pydantic { snakeCase := true } name excl false false ≠ .outOfFuel :=
+  retry_terminates _ _ _ _ _ _ _ (by decide +kernel) python_case_maps_ok
 example : getValidName asciiEnv .enum { capitalise := true } "fooBar baz".toList [] false false ≠ .outOfFuel :=
   retry_terminates _ _ _ _ _ _ _ (by decide +kernel) caseOK_asciiEnv
 
